@@ -347,13 +347,32 @@ def write_replay(replay_dir, pid, ob, repo_root):
 def run_harness(name, inputs, repo_root):
     """Run a replay harness natively on the real code (under /venv)."""
     cmd = [VENV_PY, os.path.join(VERIF, "replay", "harness.py"), name, json.dumps(inputs), repo_root]
+    # output goes through files, never pipes: a harness that starts loky workers may leave orphans that keep a pipe open
+    import tempfile
     try:
-        p = subprocess.run(cmd, capture_output=True, text=True, timeout=120,
-                           env={**os.environ, "PYTHONPATH": repo_root})
-        last = [l for l in p.stdout.splitlines() if l.startswith("{")]
+        with tempfile.TemporaryDirectory(prefix="pyvc-replay-") as td:
+            so, se = os.path.join(td, "out"), os.path.join(td, "err")
+            with open(so, "w") as fo, open(se, "w") as fe:
+                proc = subprocess.Popen(cmd, stdout=fo, stderr=fe, stdin=subprocess.DEVNULL,
+                                        env={**os.environ, "PYTHONPATH": repo_root}, start_new_session=True)
+                try:
+                    proc.wait(timeout=180)
+                except subprocess.TimeoutExpired:
+                    pass
+                finally:
+                    # the harness and whatever workers it left behind share one session: remove them all
+                    import signal
+                    try:
+                        os.killpg(proc.pid, signal.SIGKILL)
+                    except OSError:
+                        pass
+                    proc.wait()
+            out = open(so, errors="replace").read()
+            err = open(se, errors="replace").read()
+        last = [l for l in out.splitlines() if l.startswith("{")]
         if last:
             return json.loads(last[-1])
-        return {"reproduced": False, "error": (p.stderr or p.stdout)[-800:]}
+        return {"reproduced": False, "error": (err or out)[-800:] or "harness produced no result (timeout)"}
     except Exception as e:
         return {"reproduced": False, "error": repr(e)}
 
